@@ -132,11 +132,31 @@ def run_harness(h, srcs, workdir, incdirs, defines=(), tag="main", timeout=120, 
     for r in results:
         loc = r.get("sourceLocation", {})
         ob = {"id": r.get("property"), "description": r.get("description", ""), "status": r.get("status"),
-              "file": os.path.basename(loc.get("file", "")), "line": loc.get("line"), "function": loc.get("function")}
+              "file": os.path.basename(loc.get("file", "")), "path": loc.get("file", ""), "wd": loc.get("workingDirectory", ""),
+              "line": loc.get("line"), "function": loc.get("function")}
+        ob["clause"] = _src_line(ob)
         if r.get("status") == "FAILURE" and "trace" in r:
             ob["trace"] = r["trace"]
         res["obligations"].append(ob)
     return res
+
+
+_SRC = {}
+
+
+def _src_line(ob):
+    p = ob.get("path") or ""
+    if not p or not ob.get("line"):
+        return ""
+    if not os.path.isabs(p):
+        p = os.path.join(ob.get("wd") or "", p)
+    if p not in _SRC:
+        try:
+            _SRC[p] = open(p, errors="replace").read().splitlines()
+        except OSError:
+            _SRC[p] = []
+    ln = int(ob["line"])
+    return _SRC[p][ln - 1].strip()[:300] if 0 < ln <= len(_SRC[p]) else ""
 
 
 def key_of(ob):
@@ -147,6 +167,8 @@ def key_of(ob):
     m = re.match(r'(.*?)\.(postcondition|precondition|assigns|loop_assigns|loop_invariant_base|loop_invariant_step|loop_decreases|loop_step_unwinding|assertion|unwind|no-body|recursion)\.\d+$', pid)
     cls = m.group(2) if m else pid.rsplit('.', 2)[-2] if pid.count('.') >= 2 else pid
     fn = m.group(1) if m else pid.split('.')[0]
+    if cls == "postcondition" and ob.get("file", "").endswith(".c") and ob.get("clause"):
+        return f"{fn}|{cls}|{ob['clause']}"
     if cls in ("postcondition", "assertion", "loop_invariant_base", "loop_invariant_step", "loop_decreases", "precondition"):
         return f"{fn}|{cls}|{desc}"
     return None
